@@ -326,5 +326,122 @@ theorem distFL_val (p q : Acc) : ∀ cs : List T, LensWFL cs → (distFL p q cs)
             simp [e2, e1]
 end
 
+/-! ### every tree the driver parses has well-formed lengths; restriction keeps them well-formed -/
+theorem parse_owf (s : String) (a : Frac) (h : Frac.parse s = some a) : a.den ≠ 0 := by
+  unfold Frac.parse at h
+  split at h
+  · rename_i p _
+    cases hp : p.toInt? with
+    | none => simp [hp] at h
+    | some v => simp [hp] at h; subst h; simp [Frac.ofInt]
+  · rename_i p q _
+    cases hp : p.toInt? with
+    | none => simp [hp] at h
+    | some v =>
+      cases hq : q.toNat? with
+      | none => simp [hp, hq] at h
+      | some w =>
+        simp only [hp, hq] at h
+        split at h
+        · cases h
+        · simp at h; subst h; exact mk'_den _ _
+  · cases h
+
+theorem parseOLen_owf (s : String) (l : Option Frac) (h : parseOLen s = some l) : OWF l := by
+  unfold parseOLen at h
+  split at h
+  · simp at h; subst h; trivial
+  · cases hp : Frac.parse s with
+    | none => simp [hp] at h
+    | some a => simp [hp] at h; subst h; exact parse_owf s a hp
+
+theorem mapM_owf : ∀ (ss : List String) (ls : List (Option Frac)), ss.mapM parseOLen = some ls → ∀ l ∈ ls, OWF l
+  | [], ls, h => by simp at h; subst h; simp
+  | s :: ss, ls, h => by
+      simp only [List.mapM_cons] at h
+      cases h1 : parseOLen s with
+      | none => simp [h1] at h
+      | some l =>
+        cases h2 : ss.mapM parseOLen with
+        | none => simp [h1, h2] at h
+        | some ls' =>
+          simp [h1, h2] at h; subst h
+          intro l' hl'
+          rcases List.mem_cons.mp hl' with rfl | hl'
+          · exact parseOLen_owf s _ h1
+          · exact mapM_owf ss ls' h2 l' hl'
+
+theorem getElem!_owf (ls : List (Option Frac)) (h : ∀ l ∈ ls, OWF l) (i : Nat) : OWF (ls.toArray[i]!) := by
+  by_cases hi : i < ls.length
+  · have : ls.toArray[i]! = ls[i] := by simp [hi]
+    rw [this]; exact h _ (List.getElem_mem hi)
+  · have : ls.toArray[i]! = none := by simp [hi]; rfl
+    rw [this]; trivial
+
+theorem buildTree_lensWF (par : Array Int) (tax : Array (Option Nat)) (lens : Array (Option Frac)) (labs : Array (Option String))
+    (h : ∀ i : Nat, OWF (lens[i]!)) : ∀ (fuel i : Nat), LensWF (buildTree fuel par tax lens labs i)
+  | 0, i => by simp [buildTree, LensWF, LensWFL, OWF]
+  | f + 1, i => by
+      simp only [buildTree, LensWF]
+      refine ⟨h i, ?_⟩
+      generalize (List.range par.size).filter (fun j => par[j]! == (i : Int)) = kids
+      induction kids with
+      | nil => simp [LensWFL]
+      | cons k ks ih => exact ⟨buildTree_lensWF par tax lens labs h f k, ih⟩
+
+theorem parseTree_lensWF (toks : List String) (t : T) (rest : List String) (h : parseTree toks = some (t, rest)) : LensWF t := by
+  unfold parseTree at h
+  split at h
+  · cases h
+  · rename_i n rest0
+    split at h
+    · cases h
+    · rename_i n'
+      split at h
+      · cases h
+      · simp only at h
+        split at h
+        · rename_i ps xs ls ss hps hxs hls hss
+          split at h
+          · cases h
+          · simp only [Option.some.injEq, Prod.mk.injEq] at h
+            rw [← h.1]
+            exact buildTree_lensWF _ _ _ _ (getElem!_owf ls (mapM_owf _ ls hls)) _ _
+        · cases h
+
+mutual
+theorem restrict_lensWF (keep : Acc) (sup : Bool) : ∀ t r : T, LensWF t → restrict keep sup t = some r → LensWF r
+  | .node i x l s [], r, hw, h => by
+      simp only [restrict] at h
+      split at h
+      · simp at h; subst h; exact hw
+      · cases h
+  | .node i x l s (c :: cs), r, hw, h => by
+      simp only [LensWF] at hw
+      have hl := restrictL_lensWF keep sup (c :: cs) hw.2
+      simp only [restrict] at h
+      generalize restrictL keep sup (c :: cs) = ks at h hl
+      match ks, sup with
+      | [], _ => simp at h
+      | [k], true =>
+        simp at h; subst h
+        simp only [LensWFL] at hl
+        obtain ⟨j, y, m, u, ds⟩ := k
+        simp only [LensWF] at hl
+        simp only [T.withLen, T.len, LensWF]
+        exact ⟨(addLen_oval hl.1.1 hw.1).2, hl.1.2⟩
+      | [k], false => simp at h; subst h; exact ⟨hw.1, hl⟩
+      | k1 :: k2 :: ks', _ => simp at h; subst h; exact ⟨hw.1, hl⟩
+theorem restrictL_lensWF (keep : Acc) (sup : Bool) : ∀ cs : List T, LensWFL cs → LensWFL (restrictL keep sup cs)
+  | [], _ => by simp [restrictL, LensWFL]
+  | c :: cs, hw => by
+      simp only [LensWFL] at hw
+      have h2 := restrictL_lensWF keep sup cs hw.2
+      simp only [restrictL]
+      cases hc : restrict keep sup c with
+      | none => exact h2
+      | some r => exact ⟨restrict_lensWF keep sup c r hw.1 hc, h2⟩
+end
+
 end Aux
 end DendroModel.C08
